@@ -2,6 +2,7 @@ package main
 
 import (
 	"fmt"
+	"go/types"
 	"strings"
 )
 
@@ -56,6 +57,23 @@ func (g *gen) astValidAxioms(key, name, sort string) {
 		return
 	}
 	tf := parts[0] + "." + parts[1]
+	// the Go type of the field decides which facts apply (token.Pos and int fields are plain integers)
+	var ftype types.Type
+	if ap := g.e.byPkg["go/ast"]; ap != nil && ap.Types != nil {
+		if tn, ok := ap.Types.Scope().Lookup(parts[0]).(*types.TypeName); ok {
+			if st, ok := tn.Type().Underlying().(*types.Struct); ok {
+				for i := 0; i < st.NumFields(); i++ {
+					if st.Field(i).Name() == parts[1] {
+						ftype = st.Field(i).Type()
+					}
+				}
+			}
+		}
+	}
+	if ftype == nil {
+		return
+	}
+	_, isPtr := ftype.Underlying().(*types.Pointer)
 	n := g.freshName("av")
 	g.assumed["theory ast-valid: "+tf] = true
 	if g.sweepFrames != "" {
@@ -63,6 +81,9 @@ func (g *gen) astValidAxioms(key, name, sort string) {
 		pn := g.freshName("pv")
 		switch sort {
 		case arr("Int", "Int"):
+			if !isPtr {
+				break
+			}
 			g.assumeGlobal(fmt.Sprintf("(forall ((%s Int)) (! (=> (private %s) (private (select %s %s))) :pattern ((select %s %s))))", pn, pn, name, pn, name, pn))
 		case arr("Int", "Iface"):
 			g.assumeGlobal(fmt.Sprintf("(forall ((%s Int)) (! (=> (private %s) (private (i_val (select %s %s)))) :pattern ((select %s %s))))", pn, pn, name, pn, name, pn))
@@ -71,7 +92,7 @@ func (g *gen) astValidAxioms(key, name, sort string) {
 		}
 	}
 	switch {
-	case sort == arr("Int", "Int"):
+	case sort == arr("Int", "Int") && isPtr:
 		if !astNilable[tf] {
 			g.assumeGlobal(fmt.Sprintf("(forall ((%s Int)) (! (=> (not (= %s 0)) (not (= (select %s %s) 0))) :pattern ((select %s %s))))", n, n, name, n, name, n))
 		}
@@ -86,6 +107,11 @@ func (g *gen) astValidAxioms(key, name, sort string) {
 		if astNodeLists[tf] {
 			g.astListAxioms(tf, name)
 		}
+	}
+	if tf == "CallExpr.Ellipsis" {
+		// f(xs...) has at least the variadic argument
+		args := g.heapInit(fieldKey("go/ast.CallExpr", "Args"), arr("Int", "Slice"))
+		g.assumeGlobal(fmt.Sprintf("(forall ((%s Int)) (! (=> (not (= (select %s %s) 0)) (>= (s_len (select %s %s)) 1)) :pattern ((select %s %s))))", n, name, n, args, n, name, n))
 	}
 	// switch bodies hold clauses of the right kind
 	switch tf {
